@@ -161,8 +161,8 @@ inline Seg gen_seg(const std::vector<V> &l, int pct_compress) {
   size_t i = 0;
   while (i < l.size()) {
     size_t j = i + 1;
-    if (l[i].t != 'a' && runnable_const(l[i].t)) {
-      while (j < l.size() && v_same(l[j], l[i])) j++;
+    if (runnable_const(l[i].t) || l[i].t == 'a') {   // arrays may be repeated as well ("3x[1 2]")
+      while (j < l.size() && l[j].t == l[i].t && (l[i].t == 'a' ? (l[j].at == l[i].at && list_eq(l[j].el, l[i].el) && l[j].el.size() == l[i].el.size()) : v_same(l[j], l[i]))) j++;
       if (j - i >= 2 && vf::chance(pct_compress)) {
         size_t take = (size_t)vf::pick<int>(2, (int)(j - i));
         seg.push_back((int)take);
